@@ -43,6 +43,9 @@ def jobs(tier):
     for h in HASHERS:
         out.append(("hasher-seq.%s" % h, "job_hasher_seq", dict(hasher=h, P1=16384, P2=32768, K=5)))
         out.append(("hasher-seq-down.%s" % h, "job_hasher_seq", dict(hasher=h, P1=65536, P2=16384, K=4)))
+    for shp in cr.scheme_shapes(["flat2", "nested3"], tier):
+        for which in ("2a", "2c"):
+            out.append(("tree.%s.%s.P16384" % (which, shp), "job_tree", dict(which=which, shape=shp, P=16384, K=1 if shp.startswith("nested3") else 2, order="reversed")))
     for which in ("2a", "2c", "3a", "3c"):
         out.append(("tree.%s.single.P32768" % which, "job_tree", dict(which=which, shape="single", P=32768, K=4, order="reversed")))
         out.append(("tree.%s.nested3.P16384" % which, "job_tree", dict(which=which, shape="nested3", P=16384, K=2, order="symbolic" if which == "2a" else "reversed")))
